@@ -14,6 +14,7 @@ fn ops_detail(sets: &[&Vec<P>]) -> String { sets.iter().enumerate().map(|(i, s)|
 fn check_cut_and_full(stats: &mut Stats, rng: &mut Rng, a: &Vec<P>, b: &Vec<P>, class: &str, n_uniform: usize, n_near: usize) {
     let (oa, ob) = (Operand::new(a), Operand::new(b));
     let pr = probes(rng, &[&oa, &ob], n_uniform, n_near);
+    let class = &format!("{}{}", class, near_contact_suffix(&[a, b]));
     let detail = || format!("A={:?} B={:?}", a, b);
     // does the basic two-operand operation pass the same probes? (diagnostic only; its own failures belong to C01)
     let basic = |stats: &mut Stats, op: &'static str, swap: bool| -> String {
@@ -61,6 +62,7 @@ fn check_chain(stats: &mut Stats, rng: &mut Rng, sets: &Vec<Vec<P>>, key: &str, 
     let os: Vec<Operand> = sets.iter().map(Operand::new).collect();
     let refs: Vec<&Operand> = os.iter().collect();
     let pr = probes(rng, &refs, n_uniform, n_near);
+    let key = &format!("{}{}", key, contact_suffix_all(&sets.iter().collect::<Vec<_>>()));
     let detail = || ops_detail(&sets.iter().collect::<Vec<_>>());
     stats.count("op.add_chain");
     let s2 = sets.clone();
@@ -123,6 +125,11 @@ fn check_combine(stats: &mut Stats, rng: &mut Rng, expr: &Expr, leaves: &Vec<Vec
     let os: Vec<Operand> = leaves.iter().map(Operand::new).collect();
     let refs: Vec<&Operand> = os.iter().collect();
     let pr = probes(rng, &refs, n_uniform, n_near);
+    // an operand used twice meets itself along its whole boundary (identical operands), and so does a sub-expression
+    // that is combined with one of its own leaves
+    let shown = expr.show();
+    let repeated = (0..leaves.len()).any(|i| shown.matches(&format!("L{}", i)).count() > 1);
+    let key = &format!("{}{}", key, if repeated { ".repeated_operand" } else { contact_suffix_all(&leaves.iter().collect::<Vec<_>>()) });
     let detail = || format!("expr={} {}", expr.show(), leaves.iter().enumerate().map(|(i, s)| format!("L{}={:?}", i, s)).collect::<Vec<_>>().join(" "));
     stats.count("op.combine");
     let tree = expr.build(leaves);
